@@ -13,7 +13,7 @@
 From Coq Require Import List ZArith QArith Qcanon Lia Arith Bool.
 From Polar Require Import Qcx Stats StatsFps.
 From PolarGen Require Import StatsGen.
-From Polar Require Import StatsThm.
+From Polar Require Import StatsThm StatsHermite.
 Import ListNotations.
 Local Open Scope Qc_scope.
 
@@ -178,6 +178,37 @@ Theorem C11_second_moment_lower_bound_polar :
 Proof. exact second_moment_bound_polar. Qed.
 Print Assumptions C11_second_moment_lower_bound_polar.
 
+(* ===== expansions (algebraic part; see StatsHermite.v) =============================== *)
+
+(* Gaussian moment functional G[z^k] = (k-1)!! / 0 on polynomials (coefficient lists);
+   He_n by the three-term recurrence.  For ALL n and all polynomials q of degree < n:
+   G[He_n * q] = 0; and G[He_n * He_n] = n!. *)
+Theorem C11_hermite_orthogonal_low :
+  forall (n : nat) (q : list Qc), (length q <= n)%nat -> gauss (pmul (hermite n) q) = 0.
+Proof. exact hermite_orth_low. Qed.
+Print Assumptions C11_hermite_orthogonal_low.
+
+Theorem C11_hermite_norm : forall n : nat, gauss (pmul (hermite n) (hermite n)) = factq n.
+Proof. exact hermite_norm. Qed.
+Print Assumptions C11_hermite_norm.
+
+Theorem C11_hermite_orthogonal : forall i j : nat, i <> j -> gauss (pmul (hermite i) (hermite j)) = 0.
+Proof. exact hermite_orthogonal. Qed.
+Print Assumptions C11_hermite_orthogonal.
+
+(* Gram-Charlier shape  phi(z) * (1 + sum_{i=3..K} c_i He_i(z)) : for every coefficient
+   vector c (in particular Polar's Bell-polynomial coefficients, any cumulants) the density
+   integrates to 1, has standardized mean 0 and variance 1, and E[He_j] = j! c_j.
+   PARTIAL w.r.t. the property: "reproduces the first k raw moments" additionally needs
+   c_j = B_j(0,0,k3..kj)/(j! sigma^j) = E[He_j(Z)]/j!  (only validated, harness) *)
+Theorem C11_gram_charlier_partial :
+  forall (c : nat -> Qc) (K : nat),
+    let f := gc_poly c K in
+    gauss f = 1 /\ gauss (pmul [0; 1] f) = 0 /\ gauss (pmul [0; 0; 1] f) = 1 /\
+    forall j, (3 <= j <= K)%nat -> gauss (pmul (hermite j) f) = factq j * c j.
+Proof. exact gram_charlier_shape. Qed.
+Print Assumptions C11_gram_charlier_partial.
+
 (* ===== non-vacuity =================================================================== *)
 
 (* X in {0, 1, 4} with probabilities 1/2, 1/3, 1/6 *)
@@ -209,3 +240,9 @@ Example C11_nonvacuous_bounds :
   /\ qpair (Pgt L3 0) = (1%Z, 2%positive).
 Proof. repeat split; vm_compute; reflexivity. Qed.
 
+(* He_4 = z^4 - 6 z^2 + 3 ; G[He_3 * z^2] = 0 ; G[He_3 * He_3] = 6 *)
+Example C11_nonvacuous_hermite :
+  map qpair (hermite 4) = [zp (3) 1; zp (0) 1; zp (-6) 1; zp (0) 1; zp (1) 1]
+  /\ qpair (gauss (pmul (hermite 3) [0; 0; 1])) = (0%Z, 1%positive)
+  /\ qpair (gauss (pmul (hermite 3) (hermite 3))) = (6%Z, 1%positive).
+Proof. repeat split; vm_compute; reflexivity. Qed.
